@@ -152,6 +152,31 @@ func TestC20(t *testing.T) {
 				}
 			}
 		}
+		// 1a''. documents of 0.3 .. 48 MB made of sibling containers that each hold one escaped
+		// string (the string scratch of pooled child readers at every document size)
+		if e.enumStage("escaped-siblings", "8 variants (sibling object/array, escape in value/key, outer array/object) x (siblings, padding) in {(2000,120), (6000,500), (300,10000); thorough also (6000,2000), (3000,16000)} x {ReadValue, pkg.ReadValue}", true) {
+			sizes := [][2]int64{{2000, 120}, {6000, 500}, {300, 10000}}
+			if e.cfg.Thorough() {
+				sizes = append(sizes, [2]int64{6000, 2000}, [2]int64{3000, 16000})
+			}
+			idx := 0
+		es:
+			for v := int64(0); v < 8; v++ {
+				for _, sz := range sizes {
+					for _, fn := range []string{"ReadValue", "pkg.ReadValue"} {
+						idx++
+						if !e.cfg.Mine(idx) {
+							continue
+						}
+						steps := []core.Case{{Kind: fn, Strs: []string{"escaped-siblings"}, Ints: []int64{1, 0, sz[0], sz[1], v}}}
+						if err := runHistory("escaped-siblings", steps, true); err != nil {
+							r.Fail(caseOf("C20", "escaped-siblings", nil, err), err)
+							break es
+						}
+					}
+				}
+			}
+		}
 		// 1b. cross-entry-point grid: a big document through one entry point, then many small
 		// ones through another, on the same reader and buffer (size hints that outlive the call
 		// they were learned in, in every pairing of entry points)
